@@ -52,6 +52,26 @@ def strategy(tier: str):
     return _case()
 
 
+def enumerate_cases(tier: str, shard: int, nshards: int):
+    """The scalable families of C20 at two sizes (thorough: three): the geometry must also hold at scale, where size
+    thresholds inside rules (cell autocompletion limit, nesting cut-off) engage; and every family in a quote / a list."""
+    from .c20 import F as FAMILIES
+
+    idx = 0
+    for name in sorted(FAMILIES):
+        for nn in (40, 700) if tier == "quick" else (40, 700, 5000):
+            for ci, wrap in ((1, ""), (5, ""), (1, "> "), (0, "- ")):
+                if wrap and nn > 40:
+                    continue
+                idx += 1
+                if idx % nshards != shard:
+                    continue
+                src = FAMILIES[name](nn)
+                if wrap:
+                    src = "".join((wrap if i == 0 or wrap == "> " else "  ") + ln for i, ln in enumerate(src.splitlines(True)))
+                yield {"src": src, "cfg": FIXED_CFGS[ci], "family": name}
+
+
 def blank(line: str) -> bool:
     return line.strip(" \t") == ""
 
